@@ -158,7 +158,9 @@ def run(ck: Check):
     ck.run_fixed({"inherited_context_outlives_block": "C12:inherit", "leaked_inner_context": "C12:restore:leaked-inner",
                   "parent_left_before_child": "C12:restore:parent-left-first",
                   "leaving_a_context_with_an_explicit_parent": "C12:restore:explicit-parent",
-                  "failing_factory_leaves_the_current_context_alone": "C12:restore:failed-factory"})
+                  "failing_factory_leaves_the_current_context_alone": "C12:restore:failed-factory",
+                  "refused_entry_changes_nothing": "C12:restore:refused-entry",
+                  "parent_is_the_current_context_itself": "C12:parent"})
     sigs, n_fail = {}, 0
     for r in results:
         for sig, what in oracle(r):
